@@ -4,6 +4,7 @@
 mod synth;
 mod c01;
 mod c02;
+mod cs;
 mod drive;
 mod vm;
 mod walk;
@@ -14,6 +15,7 @@ fn main() {
     match args.first().map(|s| s.as_str()) {
         Some("c01") => c01::main(&args[1..]),
         Some("c02") => c02::main(&args[1..]),
+        Some("cs") => cs::main(&args[1..]),
         _ => {
             eprintln!("usage: fv-total c01 ...");
             std::process::exit(2)
